@@ -156,7 +156,7 @@ def _k_token(name, names_q, names_t=None, bounded=None):
         if not names:
             return None          # thorough-only part
         def runner():
-            r = p_kani.run_token(names, 1500 if tier == 'quick' else 7200)
+            r = p_kani.run_token(names, 3600 if tier == 'quick' else 14400)
             r['bounded'] = bounded or []
             return r
         return multi.kani_part(name, runner)
@@ -166,7 +166,7 @@ def _k_token(name, names_q, names_t=None, bounded=None):
 def _k_card(name, names, bounded=None):
     def part(tier):
         def runner():
-            r = p_kani.run_card_names(names, 900)
+            r = p_kani.run_card_names(names, 2400)
             r['bounded'] = bounded or []
             return r
         return multi.kani_part(name, runner)
